@@ -64,6 +64,9 @@ class TaskSpec:
         return "%s(name=%r, deps=%r)" % (self.kind, self.name, self.deps)
 
 
+PROJECT_PREFIX = os.environ.get("VERIF_PROJECT_PREFIX", "proj \u00e9 x")
+
+
 class Project:
     def __init__(self, scratch_root=None, config="disable_git = true\n", name=None):
         base = scratch_root or SCRATCH_BASE
@@ -71,7 +74,9 @@ class Project:
             self.root = pathlib.Path(base, name)
             self.root.mkdir(parents=True)
         else:
-            self.root = pathlib.Path(tempfile.mkdtemp(prefix="proj", dir=base))
+            # every scratch project lives under a path with a space, a non-ASCII character and a colon-free name:
+            # quoting / encoding mistakes in how Conductor passes paths to bash, tar, sqlite or git show up everywhere
+            self.root = pathlib.Path(tempfile.mkdtemp(prefix=PROJECT_PREFIX, dir=base))
         self.write("cond_config.toml", config)
 
     def write(self, rel, text):
